@@ -257,9 +257,25 @@ Proof.
   - fold s1'. rewrite A. unfold bind. eauto.
 Qed.
 
+Lemma key_check_not_internal : forall nk x, key_check c nk = Some x -> x <> EInternal.
+Proof.
+  intros nk x H. unfold key_check in H. destruct nk as [[k|n]|]; try discriminate.
+  assert (CN : forall y, check_name k = Some y -> y <> EInternal).
+  { intros y Y. unfold check_name in Y. destruct (_ || _); [inversion Y; discriminate|].
+    destruct (all_chars ok_char k); inversion Y; discriminate. }
+  destruct (c_attr c); try (apply CN; exact H).
+  unfold validate_id_short in H. destruct (check_name k) eqn:E; [inversion H; subst; apply CN; reflexivity|].
+  destruct (negb (all_chars is_idchar k)); [inversion H; discriminate|].
+  destruct k; [discriminate|]. destruct (is_alpha a); inversion H; discriminate.
+Qed.
+
 Lemma good_rename : forall s e k, Inv c s -> good c s (rename c s e (option_map KName k)) false.
 Proof.
-  intros s e k I. unfold rename. destruct (c_attr c).
+  intros s e k I. unfold rename. destruct (key_check c (option_map KName k)) as [kx|] eqn:KC.
+  { destruct (match c_attr c with AId => okey_eqb (option_map KName k) (e_key (elems s e)) | _ => false end).
+    - split; auto. split; [discriminate|intro; discriminate].
+    - apply good_same; auto. eapply key_check_not_internal; eauto. }
+  destruct (c_attr c).
   - destruct (okey_eqb (option_map KName k) (e_key (elems s e))).
     { split; auto. split; [discriminate|intro; discriminate]. }
     destruct (e_parent (elems s e)) as [o|] eqn:P.
@@ -289,6 +305,9 @@ Proof.
   intros s e k s' x I HW H. unfold rename in H.
   assert (SAME : forall y, (s, Err y) = (s', Err x) -> pub_eq s s').
   { intros y E. inversion E; subst. apply pub_eq_refl. }
+  destruct (key_check c (option_map KName k)) as [kx|].
+  { destruct (match c_attr c with AId => okey_eqb (option_map KName k) (e_key (elems s e)) | _ => false end);
+      [discriminate|eapply SAME; eauto]. }
   destruct (c_attr c) eqn:AT.
   - destruct (okey_eqb (option_map KName k) (e_key (elems s e))); [discriminate|].
     destruct (e_parent (elems s e)) as [o|] eqn:P; [|discriminate].
